@@ -32,8 +32,8 @@ def item(level):
 TRANSPARENT = ('iter', 'into_iter', 'cloned', 'copied', 'by_ref', 'iter_mut', 'deref', 'deref_mut', 'as_slice',
                'as_mut_slice', 'as_ref', 'borrow', 'fuse', 'peekable', 'into_vec', 'to_vec', 'as_mut', 'into_boxed_slice',
                'collect', 'collect_vec', 'clone', 'to_owned')
-EMPTY = re.compile(r'(Vec|String|VecDeque)::(new|with_capacity)$|Default>::default$|default::Default::default$')
-APPEND = re.compile(r'(Vec|String|VecDeque)::(push|push_str|push_back|extend|extend_from_slice|append|resize|insert)$|'
+EMPTY = re.compile(r'(Vec|String|VecDeque|HashSet|BTreeSet)::(new|with_capacity)$|Default>::default$|default::Default::default$')
+APPEND = re.compile(r'(Vec|String|VecDeque)::(push|push_str|push_back|extend|extend_from_slice|append|resize|insert)$|(HashSet|BTreeSet)::insert$|'
                     r'Extend>::extend$|Extend<.*>::extend$')
 MUTATE = re.compile(r'(Vec|String|VecDeque)::(clear|truncate|pop|remove|swap_remove|retain|dedup|drain|reverse|sort\w*|'
                     r'split_off|rotate_\w+|fill|swap|set_len|pop_front|pop_back|push_front)$|slice::(sort\w*|reverse|swap|fill|rotate_\w+)$')
@@ -556,6 +556,11 @@ def seq_of_var(facts, body, local):
                     cnt = ('bin', 'Sub', cnt, items(c, nest))
                 if ok:
                     return [Seg('repeat', elem=items(args[1], nest), count=cnt, conds=conds, term=t, body=body, level=level)]
+            # v.resize(n, x) on a vector that is still empty (created empty, this is the first writer and it is not in a loop): x repeated n times
+            others = [w for w, k2 in writers if w is not t]
+            if ic[0] == 'call' and EMPTY.search(ic[1]) and not nest and cfg.innermost_loop(body, t.bb) is None and \
+                    all(cfg.dominates(body, t.bb, w.bb) and w.bb != t.bb for w in others):
+                return [Seg('repeat', elem=items(args[1], nest), count=items(args[0], nest), conds=conds, term=t, body=body, level=level)]
             return [Seg('opaque', what='resize', term=t, body=body, count=items(args[0], nest), elem=items(args[1], nest), conds=conds)]
         return [Seg('opaque', what=n, term=t, body=body)]
 
